@@ -15,7 +15,7 @@ func init() {
 		ID:          "C05",
 		Explanation: "Decided: (roots) imports, init, main of package main, multi-value and effectful variable initialisers and linkname implementations are always alive, and the effect test covers every expression form that can call, receive or panic; (record) each function that hands out a JavaScript reference to a package-level object, generic instance, anonymous type, unexported method, method expression or local type records the DCE dependency first; (scope) every code field of a Decl that is produced by translation is filled inside CollectDCEDeps, except reviewed always-alive or self-referential sites; (names) declared names and recorded dependencies come from the same filter function and the selector clears exactly the filters it indexed; (emit) only alive decls are written and every code field is written; (link) what the prelude references inside compiled packages is rooted or guarded. NOT decided: that the filter strings identify declarations injectively for all type spellings; that recorded dependencies are complete for every program.",
 		Assumptions: []string{"a Decl without SetName is alive (dce.Info.isAlive)"},
-		Rules:       []RuleFunc{ruleC05Roots, ruleC05Record, ruleC05Scope, ruleC05Names, ruleAssembly, ruleL7},
+		Rules:       []RuleFunc{ruleC05Roots, ruleC05Record, ruleC05Scope, ruleC05Names, ruleAssembly, ruleL7, ruleNamedLookThrough},
 	})
 }
 
@@ -153,8 +153,32 @@ func ruleC05Record(c *ctx.Ctx, r *core.Reporter) {
 	}
 	if fd := c.FuncDecl("compiler", "funcContext.translateExpr"); fd != nil {
 		arm := armOf(fd, "types.MethodExpr")
-		ok := arm != nil && len(callsNamed(arm, "DeclareDCEDep")) >= 1
-		r.Check(ok, "record:method-expression", "compiler/expressions.go", "a method expression T.m records the dependency on the method")
+		// the dependency is recorded for every method expression — T.m as well as I.m: it is a top-level
+		// statement of the arm and no return precedes it
+		ok := false
+		if arm != nil {
+			for i, st := range arm.Body {
+				es, isExpr := st.(*ast.ExprStmt)
+				if !isExpr {
+					continue
+				}
+				if call, isCall := es.X.(*ast.CallExpr); isCall {
+					if _, _, nm := callee(c.Pkg("compiler").TypesInfo, call); nm == "DeclareDCEDep" {
+						early := false
+						for _, prev := range arm.Body[:i] {
+							ast.Inspect(prev, func(n ast.Node) bool {
+								if _, isRet := n.(*ast.ReturnStmt); isRet {
+									early = true
+								}
+								return true
+							})
+						}
+						ok = !early
+					}
+				}
+			}
+		}
+		r.Check(ok, "record:method-expression", "compiler/expressions.go", "every method expression (on a concrete type or on an interface type) records the dependency on the method before any return of its arm")
 	}
 	if fd := c.FuncDecl("compiler", "funcContext.translateStmt"); fd != nil {
 		arm := armOf(fd, "token.TYPE")
